@@ -141,6 +141,19 @@ fn expected_events(ds: &[GElem], path: &str, odd: &HashSet<String>, strat: OddLe
                     out.push("val empty".into());
                 }
             }
+            GVal::Pix { frags, .. } => {
+                out.push("pix-start".into());
+                out.push("item".into());
+                out.push("item-end".into());
+                for f in frags {
+                    let mut b = f.clone();
+                    if b.len() % 2 == 1 && strat == OddLengthStrategy::NextEven { b.push(0); }
+                    out.push("item".into());
+                    out.push(format!("frag {}", hex(&b)));
+                    out.push("item-end".into());
+                }
+                out.push("seq-end".into());
+            }
             _ => unreachable!("C07 data sets hold raw values only"),
         }
     }
@@ -175,6 +188,11 @@ fn gen_case(rng: &mut Rng, implicit: bool, depth: usize) -> Vec<GElem> {
         let raw = if k == 0 { Vec::new() } else { raw };
         map.insert(tag, GElem { tag, vr, val: GVal::U8(raw) });
     }
+    if depth == 0 && rng.chance(1, 4) {
+        // encapsulated pixel data: empty offset table, 1-3 fragments of odd and even sizes
+        let frags = (0..rng.urange(1, 3)).map(|_| { let k = *rng.pick(&[1usize, 3, 5, 9, 2, 4, 8]); rng.bytes(k) }).collect();
+        map.insert((0x7FE0, 0x0010), GElem { tag: (0x7FE0, 0x0010), vr: VR::OB, val: GVal::Pix { bot: Vec::new(), frags } });
+    }
     map.into_values().collect()
 }
 
@@ -188,6 +206,7 @@ fn odd_paths(ds: &[GElem], path: &str, out: &mut HashSet<String>) {
                 }
             }
             GVal::U8(raw) if raw.len() % 2 == 1 => { out.insert(p); }
+            GVal::Pix { frags, .. } if frags.iter().any(|f| f.len() % 2 == 1) => { out.insert(p); }
             _ => {}
         }
     }
@@ -234,6 +253,9 @@ fn observe_eager(bytes: &[u8], tc: &crate::props::c01::TsCase, strat: OddLengthS
                     DataToken::ItemEnd => obs.events.push("item-end".into()),
                     DataToken::SequenceEnd => obs.events.push("seq-end".into()),
                     DataToken::PrimitiveValue(v) => obs.events.push(if matches!(v, PrimitiveValue::Empty) { "val empty".into() } else { format!("val {}", actual_value(last_vr, v)) }),
+                    DataToken::PixelSequenceStart => obs.events.push("pix-start".into()),
+                    DataToken::OffsetTable(t) => { if !t.is_empty() { obs.events.push(format!("bot {}", t.len())); } }
+                    DataToken::ItemValue(b) => obs.events.push(format!("frag {}", hex(b))),
                     other => obs.events.push(format!("other {:?}", other)),
                 }
                 if obs.desync.is_none() && pos.get() != consumed.get() {
@@ -283,6 +305,13 @@ fn observe_lazy(bytes: &[u8], tc: &crate::props::c01::TsCase, strat: OddLengthSt
                                 Err(e) => { obs.error = Some(format!("into_value: {}", err_chain(&e))); break; }
                             }
                         }
+                    }
+                    LazyDataToken::PixelSequenceStart => obs.events.push("pix-start".into()),
+                    t @ LazyDataToken::LazyItemValue { .. } => {
+                        let LazyDataToken::LazyItemValue { len, .. } = &t else { unreachable!() };
+                        let len = *len;
+                        if let Err(e) = t.skip() { obs.error = Some(format!("skip: {}", err_chain(&e))); break; }
+                        if len > 0 { obs.events.push(format!("itemval len={}", len)); }
                     }
                     other => { let _ = other.skip(); obs.events.push("other".into()); }
                 }
@@ -404,11 +433,19 @@ pub fn run(cfg: &Cfg) -> Outcome {
             let first_odd_is_last = false;
             let _ = first_odd_is_last;
             for strat in [OddLengthStrategy::Accept, OddLengthStrategy::NextEven, OddLengthStrategy::Fail] {
-                let opts = OddOpts { paths: odd.clone(), trailing_pad: strat == OddLengthStrategy::NextEven };
+                // under NextEven every other case declares container lengths as the sum of the
+                // declared lengths (odd item / sequence lengths one short of the actual size)
+                let decl_sum = strat == OddLengthStrategy::NextEven && idx % 2 == 1;
+                let opts = OddOpts { paths: odd.clone(), trailing_pad: strat == OddLengthStrategy::NextEven, decl_sum, frag_odd: true };
                 let enc = refenc::encode_odd(&ds, ts, LenMode::AsMarked, &opts);
                 let mut want = Vec::new();
                 expected_events(&ds, "", &odd, strat, ts.big(), &mut want);
-                walk(&ds, 0, &mut |e, d| if let GVal::U8(r) = &e.val { l.class(format!("{}|{}|{}|len{}|d{}", tc.name, strat_name(strat), e.vr, r.len().min(18), d)); });
+                walk(&ds, 0, &mut |e, d| match &e.val {
+                    GVal::U8(r) => l.class(format!("{}|{}|{}|len{}|d{}", tc.name, strat_name(strat), e.vr, r.len().min(18), d)),
+                    GVal::Pix { frags, .. } => for f in frags { l.class(format!("{}|{}|fragment|len{}", tc.name, strat_name(strat), f.len())); },
+                    _ => {}
+                });
+                if decl_sum { l.count("next_even_cases_with_declared_sum_lengths", 1); }
                 let replay = json!({"seed": cfg.seed, "stream": 7, "case": idx, "ts": tc.name, "strategy": strat_name(strat),
                     "stream_hex": hex_short(&enc.bytes, 2048),
                     "elements": enc.pos.iter().map(|p| json!({"path": p.path, "vr": p.vr.to_string(), "declared_len": p.len, "at": p.header_at})).collect::<Vec<_>>()});
@@ -446,7 +483,12 @@ pub fn run(cfg: &Cfg) -> Outcome {
                         l.violation(format!("{}|error|{}", kp, err_class(e)), format!("reading failed: {}", e), replay.clone());
                         continue;
                     }
-                    let want_r: Vec<String> = if reader == "lazy-skip" { want.iter().map(|w| if w.starts_with("val ") { "val <skipped>".to_string() } else { w.clone() }).collect() } else { want.clone() };
+                    let lazy_frag = |w: &String| if let Some(h) = w.strip_prefix("frag ") { format!("itemval len={}", h.len() / 2) } else { w.clone() };
+                    let want_r: Vec<String> = match reader {
+                        "lazy-skip" => want.iter().map(|w| if w.starts_with("val ") { "val <skipped>".to_string() } else { lazy_frag(w) }).collect(),
+                        "lazy" => want.iter().map(lazy_frag).collect(),
+                        _ => want.clone(),
+                    };
                     if obs.events != want_r {
                         let i = obs.events.iter().zip(want_r.iter()).position(|(a, b)| a != b).unwrap_or(obs.events.len().min(want_r.len()));
                         // VR of the element at or before the first difference
@@ -464,7 +506,7 @@ pub fn run(cfg: &Cfg) -> Outcome {
                 }
             }
             if l.want_sample() && idx % 301 == 0 {
-                let enc = refenc::encode_odd(&ds, ts, LenMode::AsMarked, &OddOpts { paths: odd.clone(), trailing_pad: false });
+                let enc = refenc::encode_odd(&ds, ts, LenMode::AsMarked, &OddOpts { paths: odd.clone(), trailing_pad: false, decl_sum: false, frag_odd: true });
                 l.sample(json!({"case": idx, "ts": tc.name, "odd_elements": odd.iter().collect::<Vec<_>>(), "stream_hex": hex_short(&enc.bytes, 200)}));
             }
         },
